@@ -235,7 +235,7 @@ cdef Split compute_all_splits(Split best_split,
             if right_switch >= top_gain_right:
                 top_gain_right, second_gain_right = right_switch, top_gain_right
                 top_k_right, second_k_right = k_prime, top_k_right
-            elif left_switch >= second_gain_right:
+            elif right_switch >= second_gain_right:
                 second_gain_right = right_switch
                 second_k_right = k_prime
 
